@@ -1,10 +1,10 @@
 package main
 
 import (
-	"golang.org/x/tools/go/ssa"
 	"encoding/json"
 	"flag"
 	"fmt"
+	"golang.org/x/tools/go/ssa"
 	"os"
 	"path/filepath"
 	"sort"
@@ -336,7 +336,6 @@ func cmdVC(args []string) {
 		os.Exit(1)
 	}
 }
-
 
 func inlinable(fn *ssa.Function) bool {
 	if fn.Blocks == nil || len(fn.FreeVars) > 0 {
